@@ -4,8 +4,8 @@ from vlib import common, decsuite, picgen, h263spec as S
 from vlib.common import hexs
 from vlib.decsuite import D, parse_tok, cls_kind
 
-THEOREMS = ["C01_decode_total", "C01_history_total", "C01_macroblock_progress", "C01_kernels_safe"]
-BRIDGES = ["BridgeTables", "BridgePPrologue", "BridgePGather", "BridgePLoop", "BridgePNextLoop", "BridgePNext"]
+THEOREMS = ["C01_decode_total", "C01_history_total", "C01_source_total", "C01_source_is_model", "C01_macroblock_progress", "C01_kernels_safe"]
+BRIDGES = ["BridgeTables", "BridgePPrologue", "BridgePGather", "BridgePLoop", "BridgePNextLoop", "BridgePNext", "BridgePReach"]
 
 SIZES = [(16, 16), (32, 16), (16, 32), (17, 9), (1, 1), (33, 18), (48, 32), (8, 40), (64, 16)]
 
